@@ -69,3 +69,11 @@ claim('C17',
       'rewrite of all Expr and Lvalue arms, every LocExpr/Lvalue child field produced by the freeze family, error exits confined to '
       'warn == false, fully guarded constant folds, and the FreezeEnv built by Expr::Freeze.',
       'sibling-traversal cross-check over HIR arms + field provenance over MIR')
+claim('C01',
+      'Proof, relative to the soundness of safe Rust, of the aliasing clauses (a mutation is never visible through another holder of a '
+      'payload; calling a function on a value leaves the variable unchanged): all side conditions under which Rc<payload> can only be '
+      'mutated through make_mut/get_mut are discharged as obligations - no user unsafe (with positive control), interior mutability '
+      'confined to reviewed environment/memo edges over the whole type graph reachable from Obj, uniquely owned variable cells, cell '
+      'writers confined to the evaluator, arguments by value - plus the read-before-write ordering of op-assign and swap; thorough adds '
+      'compile-fail witnesses with compiling twins. Which slot a mutation addresses is not decided.',
+      'type-graph reachability + who-may-call census + compile_fail witnesses (typestate enforced by rustc)', level='proof')
